@@ -2,7 +2,7 @@
    Model/Bus.v, Model/Node.v, Model/Sched.v (tied to cyecca/sim/uros.py, simpy and estimator.py by the
    correspondence harness harness/corr_bus.py, which runs both on the same seeded histories). *)
 From Coq Require Import List NArith ZArith Bool.
-From Cyecca Require Import Model.Bus Model.Node Model.Sched Proofs.C20_bus Proofs.C20_node.
+From Cyecca Require Import Model.Bus Model.Node Model.Sched Proofs.C20_bus Proofs.C20_node Proofs.C20_logger.
 Import ListNotations.
 
 (* every message published on a topic goes to exactly the subscribers of that topic, in registration order ... *)
@@ -42,10 +42,42 @@ Theorem C20_init_gate : forall c ms s, inited s = false ->
   forall pre a post, snd (nrun c s ms) = pre ++ a :: post -> is_work a = true -> In (AInit true) pre.
 Proof. exact init_gate. Qed.
 
-(* logger: row time stamps never decrease, for every set of periodic processes and every horizon *)
-Theorem C20_logger_rows_time_nondecreasing : forall ps tf fuel, (forall p, In p ps -> (0 < period p)%Z) ->
+(* logger: row time stamps never decrease, for every set of periodic processes (publishers, the logger, processes that
+   set logger/dt while the simulation runs) and every horizon *)
+Theorem C20_logger_rows_time_nondecreasing : forall ps tf fuel, (forall p, In p ps -> proc_ok p) ->
   times_nondecreasing 0 (map fst (simulate ps tf fuel)).
 Proof. exact logger_rows_time_nondecreasing. Qed.
+
+(* logger: one row per logging period.  For every process table with one logger, every horizon and every sequence of
+   logger/dt updates made while the simulation runs: the first row is stamped 0 and every later row is stamped exactly
+   one wait after the previous one (chain), where the wait scheduled after a row ... *)
+Theorem C20_logger_one_row_per_period : forall ps tf fuel lp p0,
+  nth_error ps lp = Some p0 -> kind p0 = PLog ->
+  (forall pid p, nth_error ps pid = Some p -> kind p = PLog -> pid = lp) ->
+  let s := final ps tf fuel in
+  length (map fst (rows s)) = length (waits s) /\ chain (map fst (rows s)) (waits s) /\
+  (forall t, hd_error (map fst (rows s)) = Some t -> t = 0%Z).
+Proof. exact logger_one_row_per_period. Qed.
+(* ... is a configured logging period: the one set before the run or a value some process set logger/dt to (the model's
+   logger reads the value in force when it goes to sleep; Model/Sched.v fire, tied to uros.Logger.run by the correspondence) *)
+Theorem C20_logger_waits_are_configured : forall ps tf fuel d0,
+  (forall pid p, nth_error ps pid = Some p -> kind p = PLog -> period p = d0) ->
+  Forall (cfg ps d0) (waits (final ps tf fuel)).
+Proof. exact logger_waits_are_configured. Qed.
+(* without parameter updates the i-th row is stamped exactly i logging periods after 0 *)
+Theorem C20_logger_rows_at_multiples : forall ps tf fuel lp p0,
+  nth_error ps lp = Some p0 -> kind p0 = PLog ->
+  (forall pid p, nth_error ps pid = Some p -> kind p = PLog -> pid = lp) ->
+  (forall p v, In p ps -> kind p <> PSet v) ->
+  forall i t, nth_error (map fst (simulate ps tf fuel)) i = Some t -> t = (Z.of_nat i * period p0)%Z.
+Proof. exact logger_rows_at_multiples. Qed.
+(* non-vacuity: a publisher, a process that sets logger/dt to 2 at times 0, 7, 14, ... after a first period of 5 is
+   never used (the update at time 0 precedes the logger's first sleep), and one that sets it to 3 every 10 *)
+Example C20_logger_example :
+  map fst (simulate [{| kind := PPub 1; period := 3 |}; {| kind := PSet 3; period := 10 |}; {| kind := PLog; period := 5 |}] 20 1000%nat)
+  = [0; 3; 6; 9; 12; 15; 18]%Z /\
+  map fst (simulate [{| kind := PLog; period := 5 |}; {| kind := PSet 2; period := 7 |}] 20 1000%nat) = [0; 5; 7; 9; 11; 13; 15; 17; 19]%Z.
+Proof. vm_compute. split; reflexivity. Qed.
 
 (* non-vacuity: a concrete history with two subscribers, a logger and a parameter update *)
 Example C20_history_example :
@@ -64,3 +96,6 @@ Print Assumptions C20_accel_rate_limited.
 Print Assumptions C20_mag_rate_limited.
 Print Assumptions C20_init_gate.
 Print Assumptions C20_logger_rows_time_nondecreasing.
+Print Assumptions C20_logger_one_row_per_period.
+Print Assumptions C20_logger_waits_are_configured.
+Print Assumptions C20_logger_rows_at_multiples.
